@@ -365,6 +365,12 @@ def strlist_joined(l, sep):
     return sep.join(l)
 
 
+def hdr_has_method(headers):
+    """The header list carries a :method pseudo-header: utilities.extract_method_header is not None."""
+    from h2.utilities import extract_method_header
+    return extract_method_header(list(headers)) is not None
+
+
 def hdr_is_informational(headers):
     """The header list is an informational (1xx) response: utilities.is_informational_response (layer 2 contract)."""
     from h2.utilities import is_informational_response
